@@ -480,7 +480,7 @@ func bytesClone(f *Frame, st *state, callee *ssa.Function, args []Val, ins ssa.I
 	p := u.alloc(st, add(n, "1"))
 	base := u.arr(st.mem, byteSite, SBV(8))
 	u.sortOfSite(byteSite, SBV(8))
-	st.mem.arr[byteSite] = u.copyArray(byteSite, SBV(8), base, base, p, b.S[0], n)
+	u.putArr(st.mem, byteSite, u.copyArray(byteSite, SBV(8), base, base, p, b.S[0], n))
 	isNil := and(eq(b.S[0], "0"), eq(b.S[2], "0"))
 	return &Val{T: resT, S: []string{ite(isNil, "0", p), n, ite(isNil, "0", n)}}
 }
@@ -511,7 +511,7 @@ func gbkConv(f *Frame, st *state, callee *ssa.Function, args []Val, ins ssa.Inst
 	old := u.arr(st.mem, byteSite, SBV(8))
 	na := u.ctx.freshConst("Mg", SArr(SInt, SBV(8)))
 	u.ctx.assert("lib:gbk", fmt.Sprintf("(forall ((a! Int)) (! (=> (< a! %s) (= (select %s a!) (select %s a!))) :pattern ((select %s a!))))", p, na, old, na))
-	st.mem.arr[byteSite] = na
+	u.putArr(st.mem, byteSite, na)
 	return &Val{T: resT, S: []string{p, n, n}}
 }
 
@@ -525,7 +525,7 @@ func sortStrings(f *Frame, st *state, callee *ssa.Function, args []Val, ins ssa.
 		na := u.ctx.freshConst("Msort", SArr(SInt, srt))
 		u.ctx.assert("lib:sort", fmt.Sprintf("(forall ((a! Int)) (! (=> (or (< a! %s) (>= a! (+ %s (* 2 %s)))) (= (select %s a!) (select %s a!))) :pattern ((select %s a!))))", s.S[0], s.S[0], s.S[1], na, old, na))
 		u.sortOfSite(site, srt)
-		st.mem.arr[site] = na
+		u.putArr(st.mem, site, na)
 	}
 	return nil
 }
@@ -610,8 +610,96 @@ func fmtSprintf(f *Frame, st *state, callee *ssa.Function, args []Val, ins ssa.I
 			}
 		}
 	}
+	if ok {
+		if v := sprintfPercentS(f, st, call, format, resT); v != nil {
+			return v
+		}
+	}
 	v := u.freshString(st, resT, f.prefix+".sprintf")
 	return &v
+}
+
+// sprintfPercentS models formats made of literal text and plain %s verbs applied to string / []byte operands.
+func sprintfPercentS(f *Frame, st *state, call *ssa.Call, format string, resT types.Type) *Val {
+	u := f.u
+	type seg struct {
+		lit string
+		arg int
+	}
+	var segs []seg
+	nargs := 0
+	cur := ""
+	for i := 0; i < len(format); i++ {
+		c := format[i]
+		if c != '%' {
+			cur += string(c)
+			continue
+		}
+		if i+1 >= len(format) {
+			return nil
+		}
+		switch format[i+1] {
+		case '%':
+			cur += "%"
+		case 's':
+			if cur != "" {
+				segs = append(segs, seg{lit: cur, arg: -1})
+				cur = ""
+			}
+			segs = append(segs, seg{arg: nargs})
+			nargs++
+		default:
+			return nil
+		}
+		i++
+	}
+	if cur != "" {
+		segs = append(segs, seg{lit: cur, arg: -1})
+	}
+	if nargs == 0 {
+		return nil
+	}
+	ops := varargOperands(call.Call.Args[1])
+	if len(ops) != nargs {
+		return nil
+	}
+	for _, op := range ops {
+		if op == nil || !(isStringT(op.Type()) || isByteSlice(op.Type())) {
+			return nil
+		}
+	}
+	total := "0"
+	for _, sg := range segs {
+		if sg.arg < 0 {
+			total = add(total, intLit(int64(len(sg.lit))))
+		} else {
+			total = add(total, f.val(ops[sg.arg]).S[1])
+		}
+	}
+	total = u.ctx.def("sprintflen", SInt, total)
+	p := u.alloc(st, total)
+	off := "0"
+	for _, sg := range segs {
+		arr := u.arr(st.mem, strSite, SBV(8))
+		if sg.arg < 0 {
+			for k := 0; k < len(sg.lit); k++ {
+				arr = store(arr, add(p, add(off, intLit(int64(k)))), bvLitU(uint64(sg.lit[k]), 8))
+			}
+			u.setArr(st.mem, strSite, SBV(8), arr)
+			off = add(off, intLit(int64(len(sg.lit))))
+			continue
+		}
+		v := f.val(ops[sg.arg])
+		srcSite := strSite
+		if isByteSlice(ops[sg.arg].Type()) {
+			srcSite = byteSite
+		}
+		src := u.arr(st.mem, srcSite, SBV(8))
+		u.sortOfSite(strSite, SBV(8))
+		u.putArr(st.mem, strSite, u.copyArray(strSite, SBV(8), arr, src, add(p, off), v.S[0], v.S[1]))
+		off = add(off, v.S[1])
+	}
+	return &Val{T: resT, S: []string{ite(eq(total, "0"), "0", p), total}}
 }
 
 // ---- errors ----
